@@ -188,6 +188,51 @@ func Harness_C07_Client() {
 	verif.Cover("client")
 }
 
+// Harness_C07_ClientBatch: batch update of n entities (1..3) whose optional
+// fields are solver-chosen (so the last field an entity writes may or may not
+// be an excluded one): every entity arrives, without its read-only and
+// create-only fields and with everything else.
+func Harness_C07_ClientBatch(n int) {
+	m := &mockThings{}
+	tc, _, _ := c02Setup(m)
+	ents := map[string]*vt.Item{}
+	type shape struct{ id, note, tags, sub bool }
+	shapes := map[string]shape{}
+	for i := 0; i < n; i++ {
+		k := "k" + string(rune('0'+i))
+		sh := shape{verif.Bool(), verif.Bool(), verif.Bool(), verif.Bool()}
+		it := &vt.Item{Name: "nm-" + k}
+		if sh.id {
+			v := int64(7)
+			it.Id = &v
+		}
+		if sh.note {
+			v := "nt"
+			it.Note = &v
+		}
+		if sh.tags {
+			it.Tags = &[]string{"t"}
+		}
+		if sh.sub {
+			it.Sub = &vt.Leaf{V: "lv"}
+		}
+		ents[k], shapes[k] = it, sh
+	}
+	_, err := tc.BatchUpdate(ents)
+	verif.Assert(err == nil && len(m.calls) == 1 && m.calls[0].method == "batch_update", "batch update failed")
+	got := m.calls[0].items
+	verif.Assert(len(got) == n, "batch update lost or invented entities")
+	for k, sh := range shapes {
+		g := got[k]
+		verif.Assert(g != nil, "an entity of the batch update did not arrive")
+		verif.Assert(g.Id == nil, "batch update transmitted the read-only field id")
+		verif.Assert(g.Note == nil, "batch update transmitted the create-only field note")
+		verif.Assert(g.Name == "nm-"+k, "batch update dropped or mixed up a writable field")
+		verif.Assert((g.Tags != nil) == sh.tags && (g.Sub != nil) == sh.sub, "batch update dropped a writable optional field")
+	}
+	verif.Cover("client")
+}
+
 // Harness_C07_Server: a request body carrying a read-only or create-only
 // field is answered 400 and the resource is not invoked.
 func Harness_C07_Server() {
@@ -219,4 +264,32 @@ func Harness_C07_Server() {
 		verif.Assert(len(m.calls) == 1, "a clean body was rejected: "+r.header+" "+body+" -> "+rec.body.String())
 		verif.Cover("accepted")
 	}
+}
+
+// Harness_C07_ClientBatchCreate: batch create never transmits read-only fields either.
+func Harness_C07_ClientBatchCreate(n int) {
+	m := &mockThings{}
+	tc, _, _ := c02Setup(m)
+	var ents []*vt.Item
+	for i := 0; i < n; i++ {
+		it := &vt.Item{Name: "nm"}
+		if verif.Bool() {
+			v := int64(7)
+			it.Id = &v
+		}
+		if verif.Bool() {
+			v := "nt"
+			it.Note = &v
+		}
+		ents = append(ents, it)
+	}
+	_, _ = tc.BatchCreate(ents)
+	verif.Assert(len(m.calls) == 1 && m.calls[0].method == "batch_create", "batch create did not reach the resource")
+	got := m.calls[0].list
+	verif.Assert(len(got) == n, "batch create lost or invented entities")
+	for i, g := range got {
+		verif.Assert(g.Id == nil, "batch create transmitted the read-only field id")
+		verif.Assert((g.Note != nil) == (ents[i].Note != nil) && g.Name == "nm", "batch create dropped a writable field")
+	}
+	verif.Cover("client")
 }
